@@ -50,7 +50,7 @@ func (C11) Generate(rng *rand.Rand, tier string, runIdx uint64) simkit.Plan {
 	}
 	for len(p.Steps) < n {
 		sub := int64(rng.IntN(nsub))
-		switch simkit.Weighted(rng, []int{30, 20, 14, 22, 4, 3, 3, 2, 2}) {
+		switch simkit.Weighted(rng, []int{30, 20, 14, 22, 5, 3, 3, 2, 1}) {
 		case 0:
 			s := g.Next()
 			if s.Op == "txn" {
@@ -109,6 +109,8 @@ type subscriber struct {
 	view      map[string]string
 	snapDone  bool
 	lastIndex uint64 // index of the last delivered event (what a client would resume from)
+	subMax    uint64 // highest index delivered by the CURRENT subscription (monotonicity is per subscription:
+	// a resubscribe may be served from a cached snapshot that is older than what an earlier subscription delivered)
 	anyIndex  []uint64
 	// outstanding Next call
 	pending chan nextResult
@@ -319,6 +321,7 @@ func (C11) execute(p *Plan, r *simkit.Run) *simkit.Violation {
 	c.OnCommit = func(e Entry, _ any) {
 		w.recordTruth(e.Index)
 		if strings.HasPrefix(e.Desc, "acl.token.") {
+			w.tokenWrites["*"]++
 			for _, s := range w.subs {
 				s.aclTouchedSince = true
 			}
@@ -357,21 +360,21 @@ func (C11) execute(p *Plan, r *simkit.Run) *simkit.Violation {
 					r.Sig("nstf")
 				case ev.IsEndOfSnapshot():
 					s.snapDone = true
-					if ev.Index < s.lastIndex {
-						viol = mk("index-regressed", "delivered-indexes-never-decrease", fmt.Sprintf("subscriber %d (%s): end of snapshot at index %d after index %d", s.id, s.key(), ev.Index, s.lastIndex))
+					if ev.Index < s.subMax {
+						viol = mk("index-regressed", "delivered-indexes-never-decrease", fmt.Sprintf("subscriber %d (%s): end of snapshot at index %d after index %d", s.id, s.key(), ev.Index, s.subMax))
 						return
 					}
-					s.lastIndex = ev.Index
+					s.lastIndex, s.subMax = ev.Index, ev.Index
 					r.Sig("eos")
 					w.checkView(s, ev.Index, "end of snapshot", mk, &viol)
 				default:
-					if ev.Index < s.lastIndex && s.snapDone {
-						viol = mk("index-regressed", "delivered-indexes-never-decrease", fmt.Sprintf("subscriber %d (%s): event at index %d after index %d", s.id, s.key(), ev.Index, s.lastIndex))
+					if ev.Index < s.subMax && s.snapDone {
+						viol = mk("index-regressed", "delivered-indexes-never-decrease", fmt.Sprintf("subscriber %d (%s): event at index %d after index %d", s.id, s.key(), ev.Index, s.subMax))
 						return
 					}
 					s.applyOne(ev)
 					if s.snapDone {
-						s.lastIndex = ev.Index
+						s.lastIndex, s.subMax = ev.Index, ev.Index
 						r.Sig("ev")
 						w.checkView(s, ev.Index, "event", mk, &viol)
 					}
@@ -397,7 +400,8 @@ func (C11) execute(p *Plan, r *simkit.Run) *simkit.Violation {
 				break // still subscribed
 			}
 			var index uint64
-			if s == nil || s.topic != st.Name || s.svc != st.Svc || st.Idx == "zero" {
+			// "last"/"stale": the client resubscribes to what it was watching and resumes from an index it saw
+			if s == nil || st.Idx == "zero" {
 				s = &subscriber{id: st.N, topic: st.Name, svc: st.Svc, view: map[string]string{}}
 				if st.Name == "list" || st.Name == "resolver*" {
 					s.svc = ""
@@ -423,7 +427,10 @@ func (C11) execute(p *Plan, r *simkit.Run) *simkit.Violation {
 			if err != nil {
 				return mk("view-mismatch", "subscribe-succeeds", err.Error())
 			}
-			s.sub, s.closedErr, s.aclTouchedSince = sub, nil, false
+			// a token write committed before this subscription but still waiting in the publish queue will
+			// close it when it is drained: a forced resubscribe is always permitted
+			s.sub, s.closedErr, s.aclTouchedSince = sub, nil, pub.VerifPending() > 0 && w.tokenWrites["*"] > 0
+			s.subMax = 0 // (a resume that cannot be served from the buffer gets a snapshot, possibly a cached one older than the resume index)
 			if index > 0 {
 				r.Hit("probe.resume-from-index")
 			}
